@@ -7,7 +7,7 @@
 // between the two is a harness failure (exit 2), never a verdict.
 //
 // Real code: consistentHashing routes on one real table. The first listing order of every case is
-// built with the admin command "addRoute consistentHashing <key> prefix=<p>  <dest> spool=false
+// built with the admin command "addRoute consistentHashing <key> prefix=<p>  <dest>
 // reconn=3600000  <dest>…"; the other listing orders call what that command ends in
 // (destination.New + route.NewConsistentHashing + Table.AddRoute) because the command tokenizer
 // costs about half a CPU second per route under -race. Membership changes go through
@@ -199,21 +199,31 @@ func allPerms(n int) [][]int {
 	return out
 }
 
-// position index: for every 16-bit ring position two plain metric names that hash onto it
-// (found with the oracle's position function).
-var posIdx [65536][2]string
+// position index: for every 16-bit ring position a plain metric name "c15.t<n>" that hashes onto
+// it, and for most positions a second one (found with the oracle's position function). Only n is
+// stored (n+1; 0 = none): no pointers for the garbage collector to follow.
+var posN [65536][2]uint32
+
+func posName(p uint16, k int) string {
+	n := posN[p][k]
+	if n == 0 {
+		return ""
+	}
+	return "c15.t" + strconv.Itoa(int(n-1))
+}
 
 func buildPosIdx() {
-	var have [65536]uint8
-	missing := 2 * 65536
+	missing := 65536 // positions without a first name
 	buf := make([]byte, 0, 24)
 	for n := 0; missing > 0 && n < 6000000; n++ {
 		buf = strconv.AppendInt(append(buf[:0], "c15.t"...), int64(n), 10)
 		p := oracle.RingPosition(buf)
-		if have[p] < 2 {
-			posIdx[p][have[p]] = string(buf)
-			have[p]++
+		switch {
+		case posN[p][0] == 0:
+			posN[p][0] = uint32(n + 1)
 			missing--
+		case posN[p][1] == 0:
+			posN[p][1] = uint32(n + 1)
 		}
 	}
 	if missing > 0 {
@@ -314,34 +324,34 @@ func genCase(seed uint64, idx int, nNames int) *rcase {
 		// positions where two different nodes tie: keys in (previous entry, tie] go to the smaller node
 		for _, p := range rg.TiedPositions() {
 			for d := uint16(0); d < 3; d++ {
-				add(posIdx[p-d][0], true)
+				add(posName(p-d, 0), true)
 			}
-			add(posIdx[p][1], true)
-			add(posIdx[p+1][0], true)
+			add(posName(p, 1), true)
+			add(posName(p+1, 0), true)
 		}
 		// wrap-around: beyond the last entry, and the very first positions
 		last := rg.Entries[len(rg.Entries)-1].Pos
 		first := rg.Entries[0].Pos
 		for _, p := range []uint16{last, last + 1, 65535, 0, first, first + 1, first - 1} {
-			add(posIdx[p][0], true)
-			add(posIdx[p][1], true)
+			add(posName(p, 0), true)
+			add(posName(p, 1), true)
 		}
 		if last < 65535 {
-			add(posIdx[last+uint16(r.Range(1, int(65535-last)))][0], true)
+			add(posName(last+uint16(r.Range(1, int(65535-last))), 0), true)
 		}
 	}
 	// entry boundaries of the initial and the final ring (a sample)
 	for _, rg := range []*oracle.Ring{rings[0], rings[len(rings)-1]} {
 		b := rg.Boundaries()
 		for i := 0; i < 250 && i < len(b); i++ {
-			add(posIdx[b[r.Intn(len(b))]][r.Intn(2)], true)
+			add(posName(b[r.Intn(len(b))], r.Intn(2)), true)
 		}
 	}
 	// pairs of names colliding on one 16-bit position
 	for i := 0; i < 40; i++ {
 		p := uint16(r.Intn(65536))
-		add(posIdx[p][0], true)
-		add(posIdx[p][1], true)
+		add(posName(p, 0), true)
+		add(posName(p, 1), true)
 	}
 	// exotic names (route level only: the table's validator may refuse them)
 	for _, s := range []string{
@@ -464,7 +474,8 @@ func buildRoute(tab *table.Table, c *rcase, key string, order []int, viaCommand 
 		var cmd bytes.Buffer
 		fmt.Fprintf(&cmd, "addRoute consistentHashing %s prefix=%s", key, c.prefix())
 		for _, id := range order {
-			fmt.Fprintf(&cmd, "  %s spool=false reconn=3600000", c.All[id].Addr)
+			// spool=false is the default; leaving it out saves 40% of the (slow) tokenizing
+			fmt.Fprintf(&cmd, "  %s reconn=3600000", c.All[id].Addr)
 		}
 		applyMu.Lock()
 		tabMu.Lock()
@@ -493,6 +504,11 @@ func buildRoute(tab *table.Table, c *rcase, key string, order []int, viaCommand 
 	tabMu.RUnlock()
 	if rt == nil {
 		panic("route not found after it was added: " + key)
+	}
+	for _, d := range rt.Snapshot().Dests {
+		if d.Spool {
+			panic("destination " + d.Key + " spools: its counters would not show the hand-offs")
+		}
 	}
 	return rt
 }
@@ -1090,11 +1106,11 @@ func main() {
 	nCases := mon.N(40, 500)
 	nNames := mon.N(5000, 20000)
 	p := params{
-		bbFirst: mon.N(5000, 10000), // grouped black-box lines on the first listing order
-		bbOther: mon.N(500, 1000),   // ... on every other listing order
-		bbMut:   mon.N(1500, 3000),  // ... after every add/remove step
+		bbFirst: mon.N(4000, 10000), // grouped black-box lines on the first listing order
+		bbOther: mon.N(400, 1000),   // ... on every other listing order
+		bbMut:   mon.N(1200, 3000),  // ... after every add/remove step
 		wbOther: mon.N(2000, 5000),  // accessor lookups on the listing orders between the first and the last (all names on those two and after every step)
-		nSample: mon.N(50, 80),      // lines attributed one at a time per route state
+		nSample: mon.N(40, 80),      // lines attributed one at a time per route state
 	}
 	pyEvery := mon.N(1, 10)
 	pyNames := mon.N(600, 600)
